@@ -306,6 +306,16 @@ class _BaseODE:
             b = u.T @ b @ u
         return m, b, k
 
+    def _phys2modal(self, x):
+        """Convert physical vector to modal coordinates (`pre_eig`)"""
+        m = self.m_orig
+        if m is None:
+            return self.phi.T @ x
+        m = np.atleast_1d(m)
+        if m.ndim == 1:
+            return self.phi.T @ (m * x)
+        return self.phi.T @ (m @ x)
+
     def _ensure_index_type(self, pv):
         pv = np.atleast_1d(pv)
         if np.issubdtype(pv.dtype, np.bool_):
@@ -499,6 +509,13 @@ class _BaseODE:
 
         if self.pre_eig:
             force = self.phi.T @ force
+            # initial conditions are in physical coordinates; convert
+            # to the modal coordinates of the "pre" eigensolution
+            # (phi.T @ m @ phi = I, so inv(phi) = phi.T @ m):
+            if d0 is not None:
+                d0 = self._phys2modal(d0)
+            if v0 is not None:
+                v0 = self._phys2modal(v0)
 
         self._init_dv(d, v, d0, v0, force[:, 0], static_ic)
 
